@@ -8,15 +8,31 @@ VERIF = os.path.dirname(os.path.dirname(os.path.abspath(__file__)))
 
 # id -> (built?, technique, level text, level note, design ref)
 CHECKS = {
-    "C01": (False, "", "", "", "4/C01"),
+    "C01": (True,
+            "output-vs-input oracle over real executions (kalign() arrays, msa object, written fasta/msf/clu files, CLI file/stdout) of the ASan+UBSan build with the hook runtime's online invariants active",
+            "Each generated input is aligned by the real library and CLI (sanitizer build, 1..16 threads, every admissible type, default and user penalties) and every observable result is compared with the input: row count, order, names, equal lengths, de-gapped residues incl. case, no all-gap column, only '-' added; msa-object fields (alnlen, gaps[], rank, FINAL) are cross-checked. Held = no discrepancy, no sanitizer report, no monitor alarm on the runs made.",
+            'Trusts the independent parsers in vf/fmt.py and the driver drv/kvdrv.c; inputs beyond a few thousand sequences and allocation-failure paths are not reached.',
+            "4/C01"),
     "C02": (False, "", "", "", "4/C02"),
-    "C03": (False, "", "", "", "4/C03"),
+    "C03": (True,
+            'metamorphic runtime monitor: permuted presentations of the same records through the real CLI (ASan+UBSan), compared as sets of columns',
+            'For inputs built to be full of sort ties (equal lengths, duplicates, late-differing names) below and above the 100-sequence switch, the real binary is run on reversal, rotation and random permutations (also split over two files) and the column-membership sets must be equal; rows must come back in the order supplied.',
+            'Names pairwise distinct within 200 characters and free of whitespace (premise of the property); permutations are sampled, not enumerated.',
+            "4/C03"),
     "C04": (False, "", "", "", "4/C04"),
     "C05": (False, "", "", "", "4/C05"),
     "C06": (False, "", "", "", "4/C06"),
     "C07": (False, "", "", "", "4/C07"),
-    "C08": (False, "", "", "", "4/C08"),
-    "C09": (False, "", "", "", "4/C09"),
+    "C08": (True,
+            'runtime oracle on the msa object after kalign_run for k identical copies (ASan+UBSan build, hook runtime active), all admissible types x thread counts',
+            'k copies of one string over ten alphabet classes, lengths 1..5000 around the 500-column switch and copies 2..500 around the 100-sequence switch are aligned with every type admissible for the detected kind; every returned row must be the input string. Held = no gap anywhere and no sanitizer/monitor report.',
+            "Default penalties only (the property's claim); kind as detected by kalign itself.",
+            "4/C08"),
+    "C09": (True,
+            'exhaustive unit grid through aln_param_init plus end-to-end observation of the parameters actually used via the kv_param hook record; explicit-default and CLI-vs-library differentials',
+            'The complete grid 2 kinds x 6 type constants x (none+5 values)^3 overrides is executed against golden tables; CLI runs for every --type word and option subset record the aln_param really used by kalign_run through the hook and are compared with golden-table-plus-overrides; explicit defaults and the library constant must reproduce the default CLI output byte for byte. The unit grid is exhaustive for its (finite) space; the end-to-end part is sampled.',
+            'Golden tables (ref/golden_params.json) transcribed from the shipped tables and README; float comparison with relative tolerance 1e-4.',
+            "4/C09"),
     "C10": (False, "", "", "", "4/C10"),
     "C11": (True,
             "runtime differential monitor: real bpm kernels vs O(nm) reference DP under ASan+UBSan, exhaustive small spaces + seeded random pairs, AVX2 and non-AVX2 builds",
@@ -25,9 +41,17 @@ CHECKS = {
             "completely up to a length bound, block boundaries and the 1024 cap are targeted at random. Held = no mismatch and no sanitizer report on the pairs run.",
             "Trusts the O(nm) reference in drv/bpmdrv.c and the sanitizers; pairs outside the sampled space are not covered.",
             "4/C11"),
-    "C12": (False, "", "", "", "4/C12"),
+    "C12": (True,
+            'runtime oracle on CLI output rows of duplicated sequences, premise decided by an independent semi-global edit distance (ref/reftool.c)',
+            'Inputs of 2..99 sequences with duplicated members are aligned by the real binary (ASan+UBSan); whenever the independent containment premise holds, all copies must come back as identical gapped rows. Cases failing the premise are counted and skipped.',
+            '13-class reduction as published; premise computed on upper-cased sequences; lengths < 5000.',
+            "4/C12"),
     "C13": (False, "", "", "", "4/C13"),
-    "C14": (False, "", "", "", "4/C14"),
+    "C14": (True,
+            'metamorphic runtime monitor: re-spelled inputs (case flips, T<->U) through kalign_read_input+kalign_run (ASan+UBSan), gap patterns compared',
+            'Every generated nucleotide/protein input and a random re-spelling of it are aligned by the real library with the same type and thread count; gap patterns must be identical and letters must be those of the re-spelled input. Pairs for which kalign detects different kinds are skipped and counted.',
+            'IUPAC codes limited to 4 percent so that both spellings are detected as the same kind; sampled, not exhaustive.',
+            "4/C14"),
     "C15": (False, "", "", "", "4/C15"),
     "C16": (False, "", "", "", "4/C16"),
     "C17": (False, "", "", "", "4/C17"),
